@@ -16,21 +16,30 @@
 //!   tablets    - | ;-joined history of the statement's table:  L<a>:<b>:<host>=<shard>+...  |  R (refresh_metadata)
 //!   values     ,-joined  v<hex> | n | u      (the serialized bound values, marker order)
 //!   obs        <node>:<shard> | none | unsettled
-//!   pools      per node  <c|d (Node::is_connected)>:<server-side shards of the node's live non-control connections, +-joined | _>
+//!   pools      per node  <c|d (Node::is_connected)>:<server-side shards of the node's pool connections, +-joined | _>
+//!              A connection counts as a pool connection once it has SERVED a request aimed at its node (probe through a
+//!              pinning policy, see `establish`): the driver has then certainly published it.  A request during which
+//!              the set of live connections changed is reported `unsettled` (not judged).
+//!
+//! Pool tie, one line per (node, shard) probed in the pass that established the pools:
+//!   P <nr_shards>.<msb> <pool S<k>|H<k>>/<shard-aware port disallowed> <wanted shard> | <server-side shard of the serving connection> <shards of the node's connections>
 use scylla::client::execution_profile::ExecutionProfile;
 use scylla::client::session::Session;
 use scylla::client::session_builder::SessionBuilder;
 use scylla::client::PoolSize;
 use scylla::cluster::metadata::Peer;
 use scylla::policies::host_filter::HostFilter;
-use scylla::policies::load_balancing::DefaultPolicy;
+use scylla::cluster::{ClusterState, NodeRef};
+use scylla::policies::load_balancing::{DefaultPolicy, FallbackPlan, LoadBalancingPolicy, RoutingInfo};
+use scylla::routing::Shard;
 use scylla::policies::retry::FallthroughRetryPolicy;
 use scylla::response::PagingState;
 use scylla::routing::Token;
 use scylla::statement::prepared::PreparedStatement;
 use scylla::statement::Consistency;
 use scylla::value::CqlValue;
-use std::collections::HashSet;
+use std::collections::{BTreeMap, HashSet};
+use std::sync::Mutex;
 use std::num::NonZeroUsize;
 use std::sync::Arc;
 use std::time::{Duration, Instant};
@@ -452,15 +461,42 @@ fn pref_names(p: &Pref) -> Option<(String, Option<String>)> {
     }
 }
 
+/// load balancing policy of the probe statement: exactly one target, (node, shard)
+#[derive(Debug)]
+struct ProbePolicy {
+    target: Mutex<(Uuid, Shard)>,
+}
+impl LoadBalancingPolicy for ProbePolicy {
+    fn pick<'a>(&'a self, _r: &'a RoutingInfo, cluster: &'a ClusterState) -> Option<(NodeRef<'a>, Option<Shard>)> {
+        let (h, s) = *self.target.lock().unwrap();
+        cluster.get_nodes_info().iter().find(|n| n.host_id == h).map(|n| (n, Some(s)))
+    }
+    fn fallback<'a>(&'a self, _r: &'a RoutingInfo, _c: &'a ClusterState) -> FallbackPlan<'a> {
+        Box::new(std::iter::empty())
+    }
+    fn name(&self) -> String {
+        "probe".into()
+    }
+}
+
+static PERSISTENT: std::sync::atomic::AtomicUsize = std::sync::atomic::AtomicUsize::new(0);
+
 struct Running {
     c: ClusterC,
     cluster: MockCluster,
     session: Session,
     sentinel: Option<PreparedStatement>,
     round: i32,
+    probe: Option<PreparedStatement>,
+    probe_pol: Arc<ProbePolicy>,
+    /// the connections known to be published in the driver's pools: conn id -> (node, server-side shard)
+    judged: BTreeMap<u64, (usize, u16)>,
+    /// pool-tie lines of the pass that established `judged`
+    ptie: Vec<(String, String)>,
 }
 
 const SENT_TEXT: &str = "INSERT INTO zzks.zz (c0) VALUES (?)";
+const PROBE_TEXT: &str = "SELECT probe FROM zzks.probe";
 
 impl Running {
     async fn start(c: &ClusterC, stmts: &[StmtC]) -> Result<Running, String> {
@@ -515,7 +551,8 @@ impl Running {
                 return Err("session-timeout".into());
             }
         };
-        let mut r = Running { c: c.clone(), cluster, session, sentinel: None, round: 0 };
+        let probe_pol = Arc::new(ProbePolicy { target: Mutex::new((host_id_for(0), 0)) });
+        let mut r = Running { c: c.clone(), cluster, session, sentinel: None, round: 0, probe: None, probe_pol, judged: BTreeMap::new(), ptie: vec![] };
         if !r.settle(false).await {
             r.stop();
             return Err("unsettled-initial".into());
@@ -546,7 +583,122 @@ impl Running {
                 return Err(format!("prepare-sentinel {:?}", e).replace(' ', "_"));
             }
         }
+        match r.session.prepare(PROBE_TEXT).await {
+            Ok(mut p) => {
+                let prof = ExecutionProfile::builder().load_balancing_policy(r.probe_pol.clone()).retry_policy(Arc::new(FallthroughRetryPolicy)).build();
+                p.set_execution_profile_handle(Some(prof.into_handle()));
+                r.probe = Some(p);
+            }
+            Err(e) => {
+                r.stop();
+                return Err(format!("prepare-probe {:?}", e).replace(' ', "_"));
+            }
+        }
+        if !r.establish().await {
+            r.stop();
+            return Err("pools-not-established".into());
+        }
         Ok(r)
+    }
+    /// live non-control connections of the mock: conn id -> (node, server-side shard)
+    fn live(&self) -> BTreeMap<u64, (usize, u16)> {
+        self.cluster.connections(None).iter().filter(|c| c.registered.is_empty()).map(|c| (c.conn_id, (c.node, c.shard))).collect()
+    }
+    /// one request aimed at (node, shard) through the pinning policy: which connection served it
+    async fn probe_once(&self, node: usize, shard: u32) -> Option<(usize, u64, u16)> {
+        *self.probe_pol.target.lock().unwrap() = (host_id_for(node), shard);
+        let p = self.probe.as_ref().unwrap();
+        let id = self.cluster.prepared_id(PROBE_TEXT);
+        let _ = self.cluster.drain_trace();
+        let _ = tokio::time::timeout(Duration::from_secs(5), self.session.execute_unpaged(p, ())).await;
+        for e in self.cluster.drain_trace() {
+            if let Ev::In { opcode, body, .. } = &e.ev {
+                if *opcode == op::EXECUTE && wire::decode_execute(body, false).map(|x| x.id == id).unwrap_or(false) {
+                    return Some((e.node, e.conn_id, e.shard));
+                }
+            }
+        }
+        None
+    }
+    /// Establishes which connections the driver's pools hold: waits for the configured counts, then probes
+    /// every (node, shard) until every live connection has served a probe aimed at its node and no probe
+    /// aimed at a shard the mock has a connection for was served elsewhere.  A pass is retried until it is
+    /// consistent; an inconsistency that persists for 1.5 s is kept (its P lines then show what happened).
+    async fn establish(&mut self) -> bool {
+        let t0 = Instant::now();
+        let k = self.c.cfg.pool_n;
+        loop {
+            // an inconsistent pass is only believed when it persists: 1.5 s (200 ms once three scenarios
+            // of this run have shown a persistent inconsistency: the run is then a violation anyway and
+            // must not take 500 x 1.5 s)
+            let patience = if PERSISTENT.load(std::sync::atomic::Ordering::Relaxed) >= 3 { 200 } else { 1500 };
+            let late = t0.elapsed() > Duration::from_millis(patience);
+            if self.settled_now(true).is_none() {
+                if t0.elapsed() > Duration::from_secs(8) {
+                    return false;
+                }
+                tokio::time::sleep(Duration::from_millis(4)).await;
+                continue;
+            }
+            let live = self.live();
+            let mut seen: HashSet<u64> = HashSet::new();
+            let mut consistent = true;
+            let mut lines: Vec<(String, String)> = Vec::new();
+            for i in 0..self.c.nodes.len() {
+                if self.expected(i, true) == 0 {
+                    continue;
+                }
+                let n = self.c.nodes[i].clone();
+                let node_shards: Vec<u16> = { let mut v: Vec<u16> = live.values().filter(|(nd, _)| *nd == i).map(|(_, s)| *s).collect(); v.sort(); v };
+                let pools_s = node_shards.iter().map(|s| format!("{:x}", s)).collect::<Vec<_>>().join("+");
+                let mut wants: Vec<u32> = (0..n.nr.max(1) as u32).collect();
+                if n.nr > 0 {
+                    wants.push(n.nr as u32);       // out of range: any connection
+                    wants.push(70000);             // does not fit u16: shard 0
+                }
+                for want in wants {
+                    let here: Vec<u64> = live.iter().filter(|(_, (nd, s))| *nd == i && *s as u32 == want).map(|(id, _)| *id).collect();
+                    let tries = if here.is_empty() { 2 } else { 2 * k + 4 };
+                    let mut first: Option<u16> = None;
+                    for _ in 0..tries {
+                        match self.probe_once(i, want).await {
+                            Some((nd, cid, sh)) => {
+                                if first.is_none() {
+                                    first = Some(sh);
+                                }
+                                if nd != i || !live.contains_key(&cid) || (!here.is_empty() && sh as u32 != want) {
+                                    consistent = false;
+                                }
+                                seen.insert(cid);
+                            }
+                            None => consistent = false,
+                        }
+                        if !here.is_empty() && here.iter().all(|c| seen.contains(c)) {
+                            break;
+                        }
+                    }
+                    let case = format!(
+                        "P {:x}.{:x} {}{:x}/{} {:x}",
+                        n.nr, n.msb, if self.c.cfg.per_shard { "S" } else { "H" }, k, b01(self.c.cfg.no_sap), want
+                    );
+                    lines.push((case, format!("{} {}", first.map(|s| format!("{:x}", s)).unwrap_or("none".into()), pools_s)));
+                }
+            }
+            let covered = live.keys().all(|c| seen.contains(c));
+            let unchanged = self.live() == live && self.settled_now(true).is_some();
+            if covered && unchanged && (consistent || late) {
+                if !consistent {
+                    PERSISTENT.fetch_add(1, std::sync::atomic::Ordering::Relaxed);
+                }
+                self.judged = live;
+                self.ptie = lines;
+                return true;
+            }
+            if t0.elapsed() > Duration::from_secs(8) {
+                return false;
+            }
+            tokio::time::sleep(Duration::from_millis(10)).await;
+        }
     }
     fn stop(&self) {
         self.cluster.shutdown();
@@ -646,56 +798,73 @@ impl Running {
             }
         }
     }
+    fn pools_field(&self) -> String {
+        (0..self.c.nodes.len())
+            .map(|i| {
+                let mut sh: Vec<u16> = self.judged.values().filter(|(nd, _)| *nd == i).map(|(_, s)| *s).collect();
+                sh.sort();
+                format!("{}:{}", if sh.is_empty() { "d" } else { "c" }, if sh.is_empty() { "_".to_string() } else { sh.iter().map(|s| format!("{:x}", s)).collect::<Vec<_>>().join("+") })
+            })
+            .collect::<Vec<_>>()
+            .join(",")
+    }
+    /// the pools are the established ones: same live connections, Node::is_connected agrees
+    fn still_established(&self) -> bool {
+        self.live() == self.judged && self.settled_now(true).is_some()
+    }
     /// one logical request: returns "<obs> <pools>"
-    async fn request(&self, st: &StmtC, p: &PreparedStatement, vals: &[Val]) -> String {
-        let snap = match self.settled_now(true) {
-            Some(s) => s,
-            None => {
-                if !self.settle(true).await {
-                    return "unsettled -".into();
+    async fn request(&mut self, st: &StmtC, p: &PreparedStatement, vals: &[Val]) -> String {
+        for attempt in 0..2 {
+            if !self.still_established() && !self.establish().await {
+                return "unsettled -".into();
+            }
+            let _ = self.cluster.drain_trace();
+            let typed: Vec<Option<CqlValue>> = st.marks.iter().zip(vals).map(|(m, v)| to_cql(m.ty, v)).collect();
+            let res = tokio::time::timeout(Duration::from_secs(10), async {
+                match st.api {
+                    's' => self.session.execute_single_page(p, typed, PagingState::start()).await.map(|_| ()).map_err(|_| ()),
+                    'i' => self.session.execute_iter(p.clone(), typed).await.map(|_| ()).map_err(|_| ()),
+                    _ => self.session.execute_unpaged(p, typed).await.map(|_| ()).map_err(|_| ()),
                 }
-                self.snapshot()
-            }
-        };
-        let _ = self.cluster.drain_trace();
-        let typed: Vec<Option<CqlValue>> = st.marks.iter().zip(vals).map(|(m, v)| to_cql(m.ty, v)).collect();
-        let res = tokio::time::timeout(Duration::from_secs(10), async {
-            match st.api {
-                's' => self.session.execute_single_page(p, typed, PagingState::start()).await.map(|_| ()).map_err(|_| ()),
-                'i' => self.session.execute_iter(p.clone(), typed).await.map(|_| ()).map_err(|_| ()),
-                _ => self.session.execute_unpaged(p, typed).await.map(|_| ()).map_err(|_| ()),
-            }
-        })
-        .await;
-        let id = self.cluster.prepared_id(&st.text());
-        let mut obs = "none".to_string();
-        for e in self.cluster.drain_trace() {
-            if let Ev::In { opcode, body, .. } = &e.ev {
-                if *opcode == op::EXECUTE {
-                    if let Ok(x) = wire::decode_execute(body, false) {
-                        if x.id == id {
-                            // the serialized values the driver sent must be the ones of the case line
-                            let sent: Vec<Val> = x.params.values.iter().map(|v| match v { Value::Bytes(b) => Val::V(b.clone()), _ => Val::Null }).collect();
-                            if vals_s(&sent) != vals_s(vals) {
-                                obs = format!("badvalues:{}", vals_s(&sent));
-                            } else {
-                                obs = format!("{:x}:{:x}", e.node + 1, e.shard);
+            })
+            .await;
+            let id = self.cluster.prepared_id(&st.text());
+            let mut obs = "none".to_string();
+            for e in self.cluster.drain_trace() {
+                if let Ev::In { opcode, body, .. } = &e.ev {
+                    if *opcode == op::EXECUTE {
+                        if let Ok(x) = wire::decode_execute(body, false) {
+                            if x.id == id {
+                                // the serialized values the driver sent must be the ones of the case line
+                                let sent: Vec<Val> = x.params.values.iter().map(|v| match v { Value::Bytes(b) => Val::V(b.clone()), _ => Val::Null }).collect();
+                                if vals_s(&sent) != vals_s(vals) {
+                                    obs = format!("badvalues:{}", vals_s(&sent));
+                                } else {
+                                    obs = format!("{:x}:{:x}", e.node + 1, e.shard);
+                                }
+                                break;
                             }
-                            break;
                         }
                     }
                 }
             }
+            if res.is_err() {
+                // the harness gave up after 10 s: environment, not the property; one retry, then not-run
+                if attempt == 0 {
+                    continue;
+                }
+                return "skip:timeout -".into();
+            }
+            if !self.still_established() {
+                // a connection appeared or vanished while the request was under way: not judged
+                if attempt == 0 {
+                    continue;
+                }
+                return "unsettled -".into();
+            }
+            return format!("{} {}", obs, self.pools_field());
         }
-        if res.is_err() {
-            obs = "timeout".into();
-        }
-        let pools = snap
-            .iter()
-            .map(|(c, sh)| format!("{}:{}", if *c { "c" } else { "d" }, if sh.is_empty() { "_".to_string() } else { sh.iter().map(|s| format!("{:x}", s)).collect::<Vec<_>>().join("+") }))
-            .collect::<Vec<_>>()
-            .join(",");
-        format!("{} {}", obs, pools)
+        "unsettled -".into()
     }
 }
 
@@ -798,7 +967,7 @@ fn gen_cluster(r: &mut Rng) -> ClusterC {
             _ => Pref::Rack(r.range(1, ndc as u64) as u32, if r.chance(1, 10) { 9 } else { r.range(1, nracks as u64) as u32 }),
         }
     };
-    let per_shard = r.chance(2, 3);
+    let per_shard = r.chance(3, 5);
     let cfg = CfgC {
         per_shard,
         pool_n: if per_shard { r.range(1, 2) as usize } else { r.range(1, 4) as usize },
@@ -867,6 +1036,24 @@ fn gen_tablet_ops(r: &mut Rng, c: &ClusterC, aim: &[i64]) -> Vec<TabOp> {
             ops.push(TabOp::Refresh);
             continue;
         }
+        // intra-node migration: the SAME range and hosts as an earlier payload, a CHANGED shard:
+        // the later payload must replace the earlier tablet
+        if k > 0 && r.chance(1, 4) {
+            let prev: Vec<&TabOp> = ops.iter().filter(|o| matches!(o, TabOp::Learn { reps, .. } if !reps.is_empty())).collect();
+            if !prev.is_empty() {
+                if let TabOp::Learn { a, b, reps } = (*r.pick(&prev)).clone() {
+                    let reps2: Vec<(u32, i32)> = reps
+                        .iter()
+                        .map(|(h, sh)| {
+                            let nr = if *h <= n { c.nodes[*h as usize - 1].nr.max(1) as i32 } else { 4 };
+                            (*h, if nr > 1 { (sh.rem_euclid(nr) + 1 + r.below(nr as u64 - 1) as i32) % nr } else { *sh })
+                        })
+                        .collect();
+                    ops.push(TabOp::Learn { a, b, reps: reps2 });
+                    continue;
+                }
+            }
+        }
         let (a, b) = match style {
             // a partition of the whole ring in a few tablets
             0 => {
@@ -916,13 +1103,20 @@ async fn run_cluster(r: &mut Rng, c: &ClusterC, nkeys: usize, out: &mut Out) {
     let nst = r.range(1, 3) as usize;
     let stmts: Vec<StmtC> = (0..nst).map(|i| gen_stmt(r, c, i as u32)).collect();
     let cf = c.fields();
+    // a scenario that cannot be set up is retried once (environment); then it is a counted not-run
     let mut run = match Running::start(c, &stmts).await {
         Ok(x) => x,
-        Err(e) => {
-            out.case(&format!("K {} {} - {}", cf, stmts[0].field(), "n"), &format!("skip:{} -", e));
-            return;
-        }
+        Err(_) => match Running::start(c, &stmts).await {
+            Ok(x) => x,
+            Err(e) => {
+                out.case(&format!("K {} {} - {}", cf, stmts[0].field(), "n"), &format!("skip:{} -", e));
+                return;
+            }
+        },
     };
+    for (case, o) in &run.ptie {
+        out.case(case, o);
+    }
     for st in &stmts {
         let p = match run.session.prepare(st.text()).await {
             Ok(mut p) => {
@@ -979,6 +1173,27 @@ async fn run_cluster(r: &mut Rng, c: &ClusterC, nkeys: usize, out: &mut Out) {
 
 async fn replay_line(case: &str, out: &mut Out) {
     let f: Vec<&str> = case.split_whitespace().collect();
+    if f.len() == 4 && f[0] == "P" {
+        // one node with that sharding and pool configuration; the same probing pass
+        let (nr, msb) = f[1].split_once('.').unwrap();
+        let (pool, nosap) = f[2].split_once('/').unwrap();
+        let c = ClusterC {
+            nodes: vec![NodeC { dc: 1, rack: 1, nr: u16::from_str_radix(nr, 16).unwrap(), msb: u8::from_str_radix(msb, 16).unwrap(), up: 'u', flt: false, tokens: vec![0] }],
+            kss: vec![KsC { strat: Strat::Simple(1), tablets: false }],
+            cfg: CfgC { per_shard: pool.starts_with('S'), pool_n: usize::from_str_radix(&pool[1..], 16).unwrap(), no_sap: nosap == "1", pol_pref: Pref::Any, ta: true, fo: false, shuf: true, sess_pref: Pref::Any },
+        };
+        match Running::start(&c, &[]).await {
+            Ok(run) => {
+                match run.ptie.iter().find(|(cs, _)| cs == case) {
+                    Some((_, o)) => out.case(case, o),
+                    None => out.case(case, "skip:no-such-probe -"),
+                }
+                run.stop();
+            }
+            Err(e) => out.case(case, &format!("skip:{} -", e)),
+        }
+        return;
+    }
     if f.len() != 8 || f[0] != "K" {
         out.case(case, "error bad-case");
         return;
